@@ -53,6 +53,16 @@ _PROP = re.compile(r"Error: (?:Temporal properties were violated|Action property
 _COV = re.compile(r"^<(\w+) line \d+, col \d+ to line \d+, col \d+ of module (\w+)>: (\d+):(\d+)", re.M)
 
 
+def _cpu_ticks(pid: int):
+    """utime + stime of a process in clock ticks (None when it cannot be read)."""
+    try:
+        with open(f"/proc/{pid}/stat") as fh:
+            f = fh.read().rsplit(")", 1)[1].split()
+        return int(f[11]) + int(f[12])
+    except Exception:
+        return None
+
+
 def scratch(prefix: str = "vh-") -> str:
     base = os.environ.get("VERIF_SCRATCH") or tempfile.gettempdir()
     return tempfile.mkdtemp(prefix=prefix, dir=base)
@@ -110,17 +120,57 @@ def run(module: str, cfg_text: str | None = None, *, cfg: str | None = None, wor
         e.update({k: str(v) for k, v in (env or {}).items()})
         t0 = time.time()
         if on_line is None:
-            try:
-                p = subprocess.run(cmd, cwd=wd, env=e, stdout=subprocess.PIPE, stderr=subprocess.STDOUT,
-                                   timeout=timeout, text=True, errors="replace")
-            except subprocess.TimeoutExpired as ex:
-                raise MachineryError(f"TLC timed out after {timeout}s on {module}") from ex
-            out = p.stdout
+            # TLC occasionally dead-locks inside the JVM (seen once in ~10^4 runs: all workers parked, no CPU, no output).
+            # A JVM that burns < 0.5 s of CPU in 120 s of wall time is taken for stalled, killed, and the run is repeated once.
+            for attempt in (1, 2):
+                p = subprocess.Popen(cmd, cwd=wd, env=e, stdout=subprocess.PIPE, stderr=subprocess.STDOUT,
+                                     text=True, errors="replace")
+                stalled, outbuf = False, None
+                last_ticks, last_change = _cpu_ticks(p.pid), time.time()
+                while True:
+                    try:
+                        outbuf, _ = p.communicate(timeout=10)
+                        break
+                    except subprocess.TimeoutExpired:
+                        now = time.time()
+                        if now - t0 > timeout:
+                            p.kill(); p.communicate()
+                            raise MachineryError(f"TLC timed out after {timeout}s on {module}")
+                        ticks = _cpu_ticks(p.pid)
+                        if ticks is None or ticks - last_ticks >= 50:
+                            last_ticks, last_change = (ticks if ticks is not None else last_ticks), now
+                        elif now - last_change > 120:
+                            stalled = True
+                            p.kill(); p.communicate()
+                            break
+                if not stalled:
+                    break
+                if attempt == 2:
+                    raise MachineryError(f"TLC stalled twice (no CPU, no output) on {module}")
+                shutil.rmtree(os.path.join(wd, "states"), ignore_errors=True)
+            out = outbuf
         else:
             # streaming mode: lines for which on_line(line) returns True are consumed, the rest kept
             p = subprocess.Popen(cmd, cwd=wd, env=e, stdout=subprocess.PIPE, stderr=subprocess.STDOUT,
                                  text=True, errors="replace", bufsize=1 << 20)
             kept = []
+            stall = {"hit": False}
+
+            def _watch():   # same stall rule as above; streaming output cannot be replayed, so a stall is a machinery failure
+                last_ticks, last_change = _cpu_ticks(p.pid), time.time()
+                while p.poll() is None:
+                    time.sleep(10)
+                    ticks = _cpu_ticks(p.pid)
+                    now = time.time()
+                    if ticks is None or ticks - last_ticks >= 50:
+                        last_ticks, last_change = (ticks if ticks is not None else last_ticks), now
+                    elif now - last_change > 120:
+                        stall["hit"] = True
+                        p.kill()
+                        return
+
+            import threading
+            threading.Thread(target=_watch, daemon=True).start()
             try:
                 for ln in p.stdout:
                     if time.time() - t0 > timeout:
@@ -133,6 +183,8 @@ def run(module: str, cfg_text: str | None = None, *, cfg: str | None = None, wor
                 if p.poll() is None:
                     p.kill()
             out = "".join(kept)
+            if stall["hit"]:
+                raise MachineryError(f"TLC stalled (no CPU, no output) on {module}")
         wall = time.time() - t0
         r = TLCResult(rc=p.returncode, out=out, wall=wall, workdir=wd if keep else None)
         ms = _SUMMARY.findall(out)
